@@ -12,7 +12,8 @@ CONSTANTS Mode,     \* "single" | "pairs" | "all"
           PairStates    \* "tiny" | "cover"
 
 PA == <<"a">>
-PB == <<"b">>
+\* "da": shares the leading CHARACTERS of the prefix "d" without lying in the directory d/
+PB == <<"d", "a">>
 PD == <<"d", "/", "a">>
 PathSet == {PA, PB, PD}
 
@@ -62,7 +63,7 @@ PairRules ==
 \* covering subset of link states for the pair mode
 PairItemStates ==
   IF PairStates = "tiny"
-  THEN {st \in ItemStates : st[PB] = "abs" /\ st[PD] \in {"abs", "diff"}}
+  THEN {st \in ItemStates : st[PB] \in {"abs", "same"} /\ st[PD] \in {"abs", "diff"}}
   ELSE {st \in ItemStates : st[PB] \in {"abs", "same"} /\ st[PD] \in {"abs", "mat", "diff", "prod"}}
 PairRefStates ==
   IF PairStates = "tiny"
